@@ -137,3 +137,24 @@ func mixedInput(rng *rand.Rand, n int) string {
 	}
 	return b.String()
 }
+
+// typeValueInput: a fixed input in which type values (in k, and as whole values)
+// alternate with strings long enough to overwrite a recycled frame buffer.
+func typeValueInput() string {
+	types := []string{"<{foo:int64}>", "<{a:string,b:[int64]}>", "<[{foo:string}]>", "<nt={k:string}>", "<int64>", "<|{string:{foo:int64}}|>", "<(int64,string)>", "<error({foo:int64})>"}
+	var b strings.Builder
+	for i := 0; i < 32; i++ {
+		t := types[i%len(types)]
+		switch i % 4 {
+		case 0:
+			fmt.Fprintf(&b, "{k:%s}\n", t)
+		case 1:
+			fmt.Fprintf(&b, "{k:%q,z:%d}\n", strings.Repeat(fmt.Sprintf("filler-%d-", i), 6), i)
+		case 2:
+			fmt.Fprintf(&b, "{z:%d,k:%s,t:%s}\n", i, t, types[(i+3)%len(types)])
+		default:
+			fmt.Fprintf(&b, "{k:{foo:%d,s:%q}}\n", i, strings.Repeat("y", 10+i))
+		}
+	}
+	return b.String()
+}
